@@ -27,6 +27,25 @@ def extra_statements():
         ('SELECT a FROM t ORDER BY b LIMIT 2', 'order-by-unselected'), ('SELECT DISTINCT s FROM t ORDER BY s', 'distinct-order'),
         ('SELECT a / 2 AS h, a % 2 AS m, a * 1.5 AS f FROM t', 'arithmetic-types'), ('SELECT CASE WHEN a = 1 THEN 1 ELSE 0.5 END AS mixed FROM t', 'case-mixed-types'),
         ('SELECT COALESCE(b, 0.5) AS cb FROM t', 'coalesce-mixed'), ('SELECT a IS NULL AS n, a = 1 AS e, a IN (1, 2) AS i FROM t', 'boolean-exprs')]]
+    # one result assembled from physically different sources: every ordered pair of branch kinds under UNION ALL (a join hands build-side
+    # strings up dictionary-encoded, VALUES / aggregates / scans build plain arrays, integer widths differ), bare and inside a derived table
+    branches = [
+        ('scan', 'SELECT a, s FROM t'), ('filter', 'SELECT a, s FROM t WHERE a IS NOT NULL'),
+        ('join-build-string', 'SELECT t.a, x.s FROM t JOIN t x ON t.a = x.a'), ('join-probe-string', 'SELECT x.a, t.s FROM t JOIN t x ON t.a = x.a'),
+        ('left-join', 'SELECT t.a, x.s FROM t LEFT JOIN t x ON t.b = x.a'), ('aggregate', 'SELECT a, MIN(s) FROM t GROUP BY a'), ('values', "VALUES (1, 'v')"),
+        ('distinct', 'SELECT DISTINCT a, s FROM t'), ('case', "SELECT a, CASE WHEN a = 1 THEN s ELSE 'z' END FROM t"), ('int32', 'SELECT CAST(a AS INTEGER), s FROM t'),
+        ('semi', 'SELECT a, s FROM t WHERE a IN (SELECT a FROM u)'), ('window', 'SELECT a, MAX(s) OVER (PARTITION BY a) FROM t'),
+    ]
+    for (n1, b1) in branches:
+        for (n2, b2) in branches:
+            if n1 == n2:
+                continue
+            S.append({'sql': '%s UNION ALL %s' % (b1, b2), 'tag': 'union-all:%s+%s' % (n1, n2)})
+        S.append({'sql': 'SELECT * FROM (%s UNION ALL SELECT a, s FROM t) q' % b1, 'tag': 'derived-union-all:%s' % n1})
+        S.append({'sql': 'SELECT a, s FROM t UNION ALL %s UNION ALL SELECT a, s FROM t' % b1, 'tag': 'union-all-3:%s' % n1})
+    S += [{'sql': q, 'tag': tag} for q, tag in [
+        ('SELECT CASE WHEN a = 1 THEN CAST(a AS INTEGER) ELSE b END AS w FROM t', 'case-int-widths'), ('SELECT COALESCE(CAST(a AS INTEGER), b) AS w FROM t', 'coalesce-int-widths'),
+        ('SELECT CAST(a AS INTEGER) AS k FROM t UNION SELECT b FROM t', 'union-int-widths'), ('SELECT a FROM t UNION ALL SELECT c FROM u', 'union-all-int-double')]]
     return S
 
 
@@ -89,7 +108,7 @@ def run(rep):
     for db in (dirty, dirty3, dirty_pq, empty):
         for i in range(0, len(st), 40):
             tasks.append((db, st[i:i + 40], rep.prop))
-    rep.rule = ('%d statements (the umbrella corpus plus windows, VALUES, grouping sets, literals, functions, star expansions, duplicate aliases, mixed-type CASE/COALESCE) over the dirty database in '
+    rep.rule = ('%d statements (the umbrella corpus plus windows, VALUES, grouping sets, literals, functions, star expansions, duplicate aliases, mixed-type CASE/COALESCE, and UNION ALL of every ordered pair of 12 physically different branch kinds (scan, join with build-side / probe-side strings, aggregate, VALUES, window, ...)) over the dirty database in '
                 'memory (1 and 3 batches), as Parquet, and empty; oracle: every returned batch schema and physical_plan(sql).schema() equal QueryResult.schema in column count, names and types '
                 '(nullability ignored; dictionary vs plain string is a difference); non-trivial = a statement that returned rows' % len(st))
     rep.assumptions = ['the Flight GetSchema comparison is part of C34, not of this check']
